@@ -48,6 +48,58 @@ def run(ctx):
     r3_sampling(ctx, pp)
     r4_kwargs(ctx, pp)
     r5_fallback(ctx)
+    r6_safe_actions_cache(ctx)
+
+
+def r6_safe_actions_cache(ctx, rule="C15.R6"):
+    """SafeLearner.predict keeps (self._prev_actions, self._safe_actions) as a one-entry cache keyed by the offered
+    actions: both must be refreshed together on every path of the miss branch, and the learner must be offered / parsed
+    against the refreshed list."""
+    ctx.rule(rule, "SafeLearner.predict: the cached safe action list is refreshed together with its key whenever the offered actions change, "
+                   "on every path; the learner is called with and parsed against that list")
+    from ..cfg import CFG
+    from ..dataflow import reaching_defs
+    fn = ctx.fn(SAF, "SafeLearner.predict")
+    miss = [x for x in walk_shallow(fn) if isinstance(x, ast.If) and unparse(x.test) in ("self._prev_actions != actions", "actions != self._prev_actions")]
+    ctx.floor(rule, "cache-miss test in SafeLearner.predict", len(miss), 1)
+    g = CFG(fn)
+
+    def store_nodes(attr):
+        return {n.id for n in g.nodes if n.kind == "stmt" and isinstance(n.ast, ast.Assign) and any(is_self_attr(t, attr) for t in n.ast.targets)}
+
+    keys, vals = store_nodes("_prev_actions"), store_nodes("_safe_actions")
+    from ..util import escape_path
+    for m in miss:
+        tnodes = [i for i in g.nodes_of(m.test)]
+        # the first node after the join of the if-statement: every path through the true branch must pass a key store AND a value store
+        for t in tnodes:
+            after = {n.id for n in g.nodes if n.kind == "stmt" and n.ast not in list(ast.walk(m)) and n.line > m.end_lineno} | {g.exit_return}
+            for what, via in (("the cache key self._prev_actions", keys), ("the cached list self._safe_actions", vals)):
+                # only paths leaving the test by its TRUE edge matter
+                p = None
+                for b, l in g.succ[t]:
+                    if l != "true":
+                        continue
+                    if b in via:
+                        continue
+                    sub = escape_path(g, b, via, after, first_labels_skip=("exc", "abandon"), skip_labels=("exc", "abandon"))
+                    if b in after:
+                        sub = [b]
+                    if sub is not None:
+                        p = [b] + sub
+                ctx.ob(rule, SAF, "SafeLearner.predict", m, f"{what} is refreshed on every path of the miss branch", p is None and bool(via),
+                       detail=None if p is None else {"path_without_refresh": g.describe_path(p)}, stmt=f"refresh {what}")
+    for n in g.nodes:
+        if n.id in keys:
+            ctx.ob(rule, SAF, "SafeLearner.predict", n.ast, "the cache key is the offered action list", unparse(n.ast.value) == "actions")
+        if n.id in vals:
+            v = n.ast.value
+            ok = unparse(v) == "actions" or isinstance(v, ast.ListComp) and unparse(v.generators[0].iter) == "actions" or \
+                (isinstance(v, ast.IfExp) and unparse(v.body) == "actions" and isinstance(v.orelse, ast.ListComp) and unparse(v.orelse.generators[0].iter) == "actions")
+            ctx.ob(rule, SAF, "SafeLearner.predict", n.ast, "the cached list is the offered actions (0/1 replaced by equal floats), element for element", ok)
+    calls = [c for c in walk_shallow(fn) if isinstance(c, ast.Call) and call_tail(c) in ("_safe_call", "_parse_pred")]
+    for c in calls:
+        ctx.ob(rule, SAF, "SafeLearner.predict", c, "the learner is offered / its answer parsed against the cached safe list", "self._safe_actions" in [unparse(a) for a in ast.walk(c) if isinstance(a, ast.Attribute)] and not any(isinstance(a, ast.Name) and a.id == "actions" for a in ast.walk(c)))
 
 
 def r1_totality(ctx, pp, formats, orders):
@@ -209,6 +261,7 @@ def _body_of(st):
 
 
 CONTROLS = [
+    ("cache key set on one branch only", SAF, M.replace_stmt("SafeLearner.predict", M.simple_has("self._prev_actions = actions"), "if 0 in actions: self._prev_actions = actions"), "C15.R6"),
     ("drop AX in col arm", SAF, lambda tree: _drop_arm(tree, "col", "AX"), "C15.R1"),
     ("pred_format returns AQ", SAF, M.replace_expr("SafeLearner.pred_format", "'AX*'", "'AQ*'"), "C15.R2"),
     ("fixed rng for PMF", SAF, M.replace_expr("SafeLearner._parse_pred", "self._rng.choicew(actions, pred)", "CobaRandom(1).choicew(actions, pred)"), "C15.R3"),
